@@ -2,7 +2,7 @@
 # run an M obligation verbosely; after $2 seconds dump the python stack (to see where symbolic execution is stuck)
 N=$1; W=${2:-50}
 cd /verif
-MIRSMT_VERBOSE=1 timeout 600 python3-vt mirsmt/run_one.py $N --tier quick --mir $(ls /root/.cache/verif-work/mir/chrono-*.mir) --src $(ls -d /root/.cache/verif-work/mir/src-*) > /tmp/sd.out 2> /tmp/sd.err &
+MIRSMT_VERBOSE=1 timeout 600 python3-vt mirsmt/run_one.py $N --tier quick --mir $(ls /root/.cache/verif-work/mir/chrono-*-${FEAT:-std}.mir | head -n 1) --src $(ls -d /root/.cache/verif-work/mir/src-*) > /tmp/sd.out 2> /tmp/sd.err &
 PID=$!
 sleep $W
 kill -USR1 $PID
